@@ -125,7 +125,7 @@ func init() {
 }
 
 var baseTrusted = []string{
-	"T-ENG: the VC generator gvc (SSA semantics as implemented in /verif/engine); guarded by the must-fail corpus in /verif/selftest",
+	"T-ENG: the VC generator gvc (SSA semantics as implemented in /verif/engine); guarded by the must-fail lemmas T_* of the contract files and the seeded changes under /verif/seeded",
 	"T-SSA: go/packages + go/ssa (x/tools v0.29.0) lower the source faithfully",
 	"T-SMT: z3 5.1.0 / z3 4.8.12 / cvc5 1.0.3 are sound",
 	"A-LEN: every slice/string that exists has length and capacity at most 2^40 (1 TiB); make() panics beyond 2^47 bytes",
